@@ -88,10 +88,15 @@ def run(ctx):
         dparam = [sym.param(f.key, i, f.param_name(i)) for i in range(f.arg_count) if f.locals[i + 1]["ty"].endswith("Direction")][0]
         uparams = [sym.param(f.key, i, f.param_name(i)) for i in range(f.arg_count) if f.locals[i + 1]["ty"].endswith("Uint128")]
         table = {}
-        for p in ix.ok_paths(f):
+
+        def mutates_state(e):
+            # the update may have been moved into a helper / method that takes the State by `&mut`
+            t_ = e.target
+            return any(t_.locals[i + 1]["ty"].startswith("&mut ") and "State" in t_.locals[i + 1]["ty"] for i in range(t_.arg_count))
+        for p in splice(ix, ix.ok_paths(f), mutates_state):
             d = None
             for (at, o, _b, _l) in p.conds:
-                if tag(at) == "op" and payload(at)[0] == "discr" and kids(at)[0] == dparam and o[0] == "variant":
+                if tag(at) == "op" and payload(at)[0] == "discr" and ix.inline(kids(at)[0]) == dparam and isinstance(o, tuple) and o[0] == "variant":
                     d = o[1]
             for wr in ix.writes_on_path(p):
                 if wr["item"] == ST and wr["value"] is not None:
